@@ -229,7 +229,7 @@ mod resp {
     use crate::response::Response;
 
     fn part(rng: &mut Rng, binary: bool) -> ContentRange {
-        let n = rng.below(40) as usize;
+        let n = if rng.below(5) == 0 { 0 } else { rng.below(40) as usize };
         let body: Vec<u8> = (0..n).map(|_| if binary { rng.next() as u8 } else { b'a' + (rng.below(26) as u8) }).collect();
         let start = rng.below(1000);
         ContentRange { unit: "bytes".to_string(), range: Range { start, end: start + rng.below(60) }, size: (5000 + rng.below(100)).to_string(), body, content_type: "text/plain".to_string() }
@@ -1015,6 +1015,59 @@ mod statics {
         for (t, w) in cases() { if t == input { if let Some((c, o)) = check(&t, &w) { println!("{} {}", c, o); return true; } } }
         false
     }
+
+    // ---- byte ranges read from real files (C03) and request histories (C03: file changed between requests; C09: HEAD after GET)
+    fn get(target: &str, range: Option<&str>, method: &str) -> Option<e2e::Parsed> {
+        let raw = match range { Some(r) => format!("{} {} HTTP/1.1\r\nHost: localhost\r\nRange: {}\r\n\r\n", method, target, r), None => format!("{} {} HTTP/1.1\r\nHost: localhost\r\n\r\n", method, target) };
+        e2e::run(raw.as_bytes(), 0, false).ok().and_then(|o| e2e::parse(&o))
+    }
+    fn hdr(p: &e2e::Parsed, n: &str) -> Option<String> { p.headers.iter().find(|(k, _)| k == n).map(|(_, v)| v.clone()) }
+    pub fn check_range(file: &str, a: u64, b: u64) -> Option<(String, String)> {
+        let content = std::fs::read(file).unwrap();
+        let p = get(&format!("/{}", file), Some(&format!("bytes={}-{}", a, b)), "GET")?;
+        if (b as usize) < content.len() && a <= b {
+            let want = &content[a as usize..=b as usize];
+            if p.status != 206 { return Some(("c03_status".into(), format!("{} for bytes={}-{} of {} ({} bytes)", p.status, a, b, file, content.len()))); }
+            if p.body != want { return Some(("c03_body".into(), format!("bytes={}-{} of {}: {} body bytes, expected {}", a, b, file, p.body.len(), want.len()))); }
+            if hdr(&p, "Content-Length").as_deref() != Some(want.len().to_string().as_str()) { return Some(("c03_content_length".into(), format!("bytes={}-{} of {}: Content-Length {:?}", a, b, file, hdr(&p, "Content-Length")))); }
+        }
+        None
+    }
+    pub fn search_ranges(_seed: u64) -> bool {
+        setup();
+        let mut h = Hits::new();
+        for f in ["big.bin", "edge8193.bin", "all.dat"] {
+            let len = std::fs::metadata(f).unwrap().len();
+            for (a, b) in [(0u64, 8191u64), (100, 8291), (5, 16388), (0, 0), (1, 8192), (0, 16383), (8192, 16383), (0, 8190), (0, 8192), (3, 10), (0, 255), (len - 1, len - 1)] {
+                if b < len { if let Some((c, o)) = check_range(f, a, b) { h.hit("ranges", &c, "Server::process", &format!("{}|{}-{}", f, a, b), &o); } }
+            }
+        }
+        // history 1 (C03): the file grows / shrinks between two requests
+        std::fs::write("hist.bin", vec![b'1'; 100]).unwrap();
+        let _ = get("/hist.bin", None, "GET");
+        let _ = get("/hist.bin", Some("bytes=0-9"), "GET");
+        std::fs::write("hist.bin", vec![b'2'; 300]).unwrap();
+        if let Some(p) = get("/hist.bin", Some("bytes=150-199"), "GET") {
+            if p.status != 206 || p.body != vec![b'2'; 50] { h.hit("ranges", "c03_history", "Server::process", "hist.bin grown 100->300, bytes=150-199", &format!("{} with {} body bytes", p.status, p.body.len())); }
+            else if let Some(cr) = hdr(&p, "Content-Range") { if !cr.ends_with("/300") { h.hit("ranges", "c03_history", "Server::process", "hist.bin grown 100->300, bytes=150-199", &format!("Content-Range {}", cr)); } }
+        }
+        std::fs::write("hist.bin", vec![b'3'; 20]).unwrap();
+        if let Some(p) = get("/hist.bin", Some("bytes=50-60"), "GET") { if p.status == 206 || p.status == 200 { h.hit("ranges", "c03_history", "Server::process", "hist.bin truncated to 20, bytes=50-60", &format!("{} with {} body bytes", p.status, p.body.len())); } }
+        // history 2 (C09): HEAD after a GET of the same target with a different Range header answers like the matching GET
+        let _ = get("/all.dat", Some("bytes=0-9"), "GET");
+        if let (Some(hd), Some(g)) = (get("/all.dat", None, "HEAD"), get("/all.dat", None, "GET")) {
+            if hd.status != g.status || hdr(&hd, "Content-Length") != hdr(&g, "Content-Length") || hdr(&hd, "Content-Range") != hdr(&g, "Content-Range") {
+                h.hit("ranges", "c09_history", "Server::process", "GET /all.dat bytes=0-9; HEAD /all.dat", &format!("HEAD {} Content-Length {:?}, GET {} Content-Length {:?}", hd.status, hdr(&hd, "Content-Length"), g.status, hdr(&g, "Content-Length")));
+            }
+        }
+        let _ = get("/all.dat", None, "GET");
+        if let (Some(hd), Some(g)) = (get("/all.dat", Some("bytes=0-9"), "HEAD"), get("/all.dat", Some("bytes=0-9"), "GET")) {
+            if hd.status != g.status || hdr(&hd, "Content-Length") != hdr(&g, "Content-Length") {
+                h.hit("ranges", "c09_history", "Server::process", "GET /all.dat; HEAD /all.dat bytes=0-9", &format!("HEAD {} Content-Length {:?}, GET {} Content-Length {:?}", hd.status, hdr(&hd, "Content-Length"), g.status, hdr(&g, "Content-Length")));
+            }
+        }
+        h.n > 0
+    }
 }
 
 // ---------------------------------------------------------------- multipart/form-data round trip (C16)
@@ -1150,6 +1203,7 @@ pub fn dispatch(args: &[String]) -> i32 {
         ("search", "parsers") => parsers::search(args.get(2).and_then(|s| s.parse().ok()).unwrap_or(1)),
         ("search", "statics") => statics::search(1),
         ("replay", "statics") => statics::replay(&args[2], &args[3]),
+        ("search", "ranges") => statics::search_ranges(1),
         ("search", "mpform") => mpform::search(args.get(2).and_then(|s| s.parse().ok()).unwrap_or(1)),
         ("search", "range") => rng::search(args.get(2).and_then(|s| s.parse().ok()).unwrap_or(1)),
         ("replay", "range") => rng::replay(&args[2], &args[3]),
